@@ -75,7 +75,9 @@ where
             let out = (window_len * sxy - sx * sy)
                 / ((window_len * sxx - sx.powi(2)) * (window_len * syy - sy.powi(2))).sqrt();
             debug_assert!(out.is_finite(), "value must be finite");
-            return Some(out);
+            // |r| <= 1 holds in exact arithmetic only: on a (nearly) linear window the rounding of
+            // the N-term sums puts the quotient up to about N ulps outside
+            return Some(out.max(-T::one()).min(T::one()));
         }
         Some(T::zero())
     }
